@@ -1,4 +1,5 @@
 pub mod c06;
 pub mod c10;
 pub mod c11;
+pub mod c12;
 pub mod c15;
